@@ -56,18 +56,27 @@ JudgeMerge(e, grp) ==
     [] grp = "keeps" -> Sem(e, grp, KeepsClauses(e.c1, e.c2, e.res))
     [] OTHER -> <<"malformed", "group">>
 
+\* a rename has one reason to answer ValueError: the substituted contract is unsatisfiable.  A point at which every substituted
+\* assumption and guarantee holds (a hint; every row is re-evaluated here) shows that it is not.
+RefusedSatisfiable(e, want) ==
+  /\ e.exc = "ValueError" /\ e.refusal.kind = "witness" /\ e.refusal.d > 0
+  /\ \A v \in Rng(e.names) : v \in DOMAIN e.refusal.q
+  /\ AllHoldAt(want.a \o want.g, e.refusal.q, e.refusal.d)
+Faithful(e, want) == IF RefusedSatisfiable(e, want) THEN <<"violation", "faithful:satisfiable-contract-refused">>
+                     ELSE Sem(e, "faithful", EquivClauses(e.res, want))
+
 JudgeRename(e, grp) ==
   CASE grp = "itf" /\ e.s \notin ItfVars(e.c1) /\ Raised(e) -> <<"violation", "itf:absent-source-rejected:" \o e.exc>>   \* renaming an absent variable changes nothing
     [] grp = "itf" -> ItfJudge(e, ~RenameClash(e.c1, e.s, e.t),
                                IF e.s \in ItfVars(e.c1) THEN RenameSet(Set(e.c1.inv), e.s, e.t) ELSE Set(e.c1.inv),
                                IF e.s \in ItfVars(e.c1) THEN RenameSet(Set(e.c1.outv), e.s, e.t) ELSE Set(e.c1.outv))
-    [] grp = "faithful" -> Sem(e, grp, EquivClauses(e.res, Renamed(e.c1, e.s, e.t)))
+    [] grp = "faithful" -> Faithful(e, Renamed(e.c1, e.s, e.t))
     [] OTHER -> <<"malformed", "group">>
 
 JudgeRenames(e, grp) ==
   LET want == RenamedAll(e.c1, e.maps, 1) IN
   CASE grp = "itf" -> ItfJudge(e, ~ClashAll(e.c1, e.maps, 1), Set(want.inv), Set(want.outv))
-    [] grp = "faithful" -> Sem(e, grp, EquivClauses(e.res, want))
+    [] grp = "faithful" -> IF ClashAll(e.c1, e.maps, 1) THEN Sem(e, grp, EquivClauses(e.res, want)) ELSE Faithful(e, want)
     [] OTHER -> <<"malformed", "group">>
 
 Judge(e, grp) ==
